@@ -9,7 +9,7 @@ TECHNIQUE = 'runtime monitoring at the client boundary: every permutation of mod
 RULE = ('(a) seeded step sets {posoargs, kwoargs (split or joint), autokwoargs, annotate} on functions of U({a,b,c},3): every '
         'permutation is applied, admissible orders must agree on sigtools.signature, inspect.signature and behaviour on all '
         'call shapes and match the native reference; (b) histories over {retrieve, inspect-retrieve, bind+keep, call, drop '
-        'instance + gc.collect(), class access, subclass instance, fresh instance, re-annotate, a retrieval that fails through an injected fault} on 8 kinds of objects '
+        'instance + gc.collect(), class access, subclass instance, fresh instance, re-annotate, a retrieval that fails through an injected fault} on 9 kinds of objects '
         '(modifier methods, forger wrappers, forwards_to_super, wrappers.decorator, wrapper_decorator): enumerated '
         'exhaustively up to length 3 (thorough: 5) over a 5 (6) letter alphabet, plus seeded random ones up to length 6 over '
         'the full 15-letter alphabet, plus 8 targeted histories around a re-decoration. Non-trivial: a step set with >= 2 admissible orders, or a completed history; distinct '
